@@ -14,6 +14,8 @@
 -/
 import MitmVerif.Model.C22
 import MitmVerif.Lemmas.C22
+import MitmVerif.Lemmas.C22Parse
+import MitmVerif.Lemmas.C22Render
 namespace MitmVerif.Props.C22
 open MitmVerif MitmVerif.C22 MitmVerif.Gen.C22 MitmVerif.Lemmas.C22
 
@@ -415,11 +417,158 @@ theorem parseV4_wf (s : Text) (n : Nat) (h : parseV4 s = some n) : wf (Addr.v4 n
     simp only [wf]; omega
   · cases h
 
+/-! ### every parse result is an address value `ipaddress` can hold (the `wf` side condition, derived) -/
+
+private theorem v6Parts_ok (s : Text) (parts : List Part) (h : v6Parts s = some parts) :
+    ∀ p ∈ parts, PartOk p := by
+  unfold v6Parts at h
+  split at h; · cases h
+  simp only at h
+  split at h; · cases h
+  split at h
+  · cases hv : parseV4 ((splitOn 0x3a s).getLast?.getD []) with
+    | none => simp [hv] at h
+    | some v =>
+      simp only [hv, Option.some.injEq] at h
+      subst h
+      have hw := parseV4_wf _ v hv
+      simp only [wf] at hw
+      intro p hp
+      simp only [List.mem_append, List.mem_map, List.mem_cons, List.not_mem_nil, or_false] at hp
+      rcases hp with ⟨t, _, rfl⟩ | rfl | rfl
+      · exact partOk_txt t
+      · exact partOk_num _ (by omega)
+      · exact partOk_num _ (by omega)
+  · simp only [Option.some.injEq] at h
+    subst h
+    intro p hp
+    simp only [List.mem_map] at hp
+    obtain ⟨t, _, rfl⟩ := hp
+    exact partOk_txt t
+
+/-- the IPv6 parser only produces 128-bit values -/
+theorem parseV6Int_lt (s : Text) (n : Nat) (h : parseV6Int s = some n) :
+    n ≤ 340282366920938463463374607431768211455 := by
+  unfold parseV6Int at h
+  cases hp : v6Parts s with
+  | none => simp [hp] at h
+  | some parts =>
+    simp only [hp] at h
+    have := assembleV6_lt parts n (v6Parts_ok s parts hp) h
+    omega
+
+theorem parseV6_wf (s : Text) (a : Addr) (h : parseV6 s = some a) : wf a := by
+  unfold parseV6 at h
+  split at h; · cases h
+  split at h
+  · cases hn : parseV6Int s with
+    | none => simp [hn] at h
+    | some n =>
+      simp only [hn, Option.map_some, Option.some.injEq] at h
+      subst h; exact parseV6Int_lt s n hn
+  · split at h; · cases h
+    rename_i a' sc _ _
+    cases hn : parseV6Int a' with
+    | none => simp [hn] at h
+    | some n =>
+      simp only [hn, Option.map_some, Option.some.injEq] at h
+      subst h; exact parseV6Int_lt a' n hn
+
+/-- **`wf` is a theorem of the parser**: whatever text `ipaddress.ip_address` accepts, the value is
+    below 2^32 (IPv4) resp. 2^128 (IPv6) -/
+theorem parseIp_wf (s : Text) (a : Addr) (h : parseIp s = some a) : wf a := by
+  unfold parseIp at h
+  cases h4 : parseV4 s with
+  | some n =>
+    simp only [h4, Option.some.injEq] at h
+    subst h; exact parseV4_wf s n h4
+  | none =>
+    simp only [h4] at h
+    exact parseV6_wf s a h
+
+/-- `classOf_eq_membership` without side condition: for the address any peer text denotes -/
+theorem classOf_eq_membership_parsed (peer : Text) (a : Addr) (hp : parseIp (peerHost peer) = some a) :
+    classOf a = memberCls (effective a) :=
+  classOf_eq_membership a (parseIp_wf _ a hp)
+
+/-- `refused_iff_membership` without side condition: for EVERY peer text that denotes an address the
+    connection is refused iff the address (IPv4-mapped view) is outside the interpreter's loopback
+    network, the mode is not local-redirect, and it is global with block_global on or a member of a
+    private network with block_private on -/
+theorem refused_iff_membership_parsed (peer : Text) (a : Addr) (m : Mode) (bg bp : Bool)
+    (hp : parseIp (peerHost peer) = some a) :
+    (verdict peer m bg bp).refused = true ↔
+      ((memberCls (effective a)).loop = false ∧ m ≠ Mode.local ∧
+        ((bg = true ∧ (memberCls (effective a)).glob = true) ∨
+         (bp = true ∧ (memberCls (effective a)).priv = true))) :=
+  refused_iff_membership peer a m bg bp hp (parseIp_wf _ a hp)
+
+/-- the complete decision as one statement over all peer texts: unparseable ⇒ the hook raises and
+    nothing is refused; parseable ⇒ refused exactly by the membership rule above -/
+theorem verdict_total (peer : Text) (m : Mode) (bg bp : Bool) :
+    (parseIp (peerHost peer) = none ∧ verdict peer m bg bp = Verdict.raised) ∨
+    (∃ a, parseIp (peerHost peer) = some a ∧ wf a ∧
+      ((verdict peer m bg bp).refused = true ↔
+        ((memberCls (effective a)).loop = false ∧ m ≠ Mode.local ∧
+          ((bg = true ∧ (memberCls (effective a)).glob = true) ∨
+           (bp = true ∧ (memberCls (effective a)).priv = true))))) := by
+  cases hp : parseIp (peerHost peer) with
+  | none => exact Or.inl ⟨rfl, (unparseable_not_refused peer m bg bp hp).1⟩
+  | some a => exact Or.inr ⟨a, rfl, parseIp_wf _ a hp, refused_iff_membership_parsed peer a m bg bp hp⟩
+
 -- membership and table agree on concrete addresses, and membership is not constant
 example : memberCls (Addr.v4 134744072) = ⟨false, false, true⟩ := by decide +kernel      -- 8.8.8.8
 example : memberCls (Addr.v4 167772161) = ⟨false, true, false⟩ := by decide +kernel      -- 10.0.0.1
 example : memberCls (Addr.v4 1681915905) = ⟨false, false, false⟩ := by decide +kernel    -- 100.64.0.1
 example : memberCls (Addr.v6 1 none) = ⟨true, true, false⟩ := by decide +kernel           -- ::1
+
+/-! ### the operating system's text forms, without parse hypotheses -/
+
+private theorem mapped_no_pct (a b c d : Nat) (ha : a < 256) (hb : b < 256) (hc : c < 256) (hd : d < 256) :
+    (0x25 : UInt8) ∉ mappedText a b c d := by
+  have := dotted_no a b c d ha hb hc hd 0x25 (Or.inr (Or.inr rfl))
+  simp only [mappedText, List.mem_append, not_or]
+  exact ⟨by decide, this⟩
+
+/-- the parser model reads the dotted quad back (IPv4 read-back) -/
+theorem parseIp_dotted (a b c d : Nat) (ha : a < 256) (hb : b < 256) (hc : c < 256) (hd : d < 256) :
+    parseIp (dotted a b c d) = some (Addr.v4 (((a * 256 + b) * 256 + c) * 256 + d)) := by
+  simp [parseIp, parseV4_dotted a b c d ha hb hc hd]
+
+/-- **IPv4-mapped and zone-scoped forms are decided like the plain form — for the text forms
+    themselves.** For every IPv4 address `a.b.c.d` and every zone `z`: the peers `a.b.c.d`,
+    `a.b.c.d%z`, `::ffff:a.b.c.d` and `::ffff:a.b.c.d%z` get the same verdict in every mode under all
+    options.  (`mapped_scoped_equal_plain` with its parse hypotheses discharged by the read-back
+    theorems `parseIp_dotted` / `parseIp_mapped`.) -/
+theorem canonical_forms_equal_plain (a b c d : Nat) (ha : a < 256) (hb : b < 256) (hc : c < 256)
+    (hd : d < 256) (z : Text) (hz : (0x25 : UInt8) ∉ z) (m : Mode) (bg bp : Bool) :
+    verdict (dotted a b c d ++ 0x25 :: z) m bg bp = verdict (dotted a b c d) m bg bp ∧
+    verdict (mappedText a b c d) m bg bp = verdict (dotted a b c d) m bg bp ∧
+    verdict (mappedText a b c d ++ 0x25 :: z) m bg bp = verdict (dotted a b c d) m bg bp :=
+  mapped_scoped_equal_plain (dotted a b c d) (mappedText a b c d) z
+    (((a * 256 + b) * 256 + c) * 256 + d) none m bg bp (by omega)
+    (parseIp_dotted a b c d ha hb hc hd) (parseIp_mapped a b c d ha hb hc hd)
+    (dotted_no a b c d ha hb hc hd 0x25 (Or.inr (Or.inr rfl))) (mapped_no_pct a b c d ha hb hc hd) hz
+
+/-- the verdict for the plain text form of an IPv4 address, in closed form over the interpreter's networks -/
+theorem dotted_refused_iff (a b c d : Nat) (ha : a < 256) (hb : b < 256) (hc : c < 256) (hd : d < 256)
+    (m : Mode) (bg bp : Bool) :
+    (verdict (dotted a b c d) m bg bp).refused = true ↔
+      ((memberCls4 (((a * 256 + b) * 256 + c) * 256 + d)).loop = false ∧ m ≠ Mode.local ∧
+        ((bg = true ∧ (memberCls4 (((a * 256 + b) * 256 + c) * 256 + d)).glob = true) ∨
+         (bp = true ∧ (memberCls4 (((a * 256 + b) * 256 + c) * 256 + d)).priv = true))) := by
+  have hph : peerHost (dotted a b c d) = dotted a b c d :=
+    (zone_stripped (dotted a b c d) [] (by simp)).2 (dotted_no a b c d ha hb hc hd 0x25 (Or.inr (Or.inr rfl)))
+  have hp : parseIp (peerHost (dotted a b c d)) = some (Addr.v4 (((a * 256 + b) * 256 + c) * 256 + d)) := by
+    rw [hph]; exact parseIp_dotted a b c d ha hb hc hd
+  have := refused_iff_membership_parsed (dotted a b c d) _ m bg bp hp
+  simpa [effective, memberCls] using this
+
+-- 10.1.2.3 in all four text forms under block_private, computed; and the read-back on a concrete address
+example : parseIp (dotted 10 1 2 3) = some (Addr.v4 167838211) := by decide +kernel
+example : parseIp (mappedText 10 1 2 3) = some (Addr.v6 (0xFFFF * 4294967296 + 167838211) none) := by decide +kernel
+example : verdict (mappedText 10 1 2 3 ++ 0x25 :: [0x65, 0x74, 0x68, 0x30]) .regular false true = .killedPrivate := by
+  decide +kernel
 
 /-! ### end-to-end corollaries -/
 
